@@ -521,6 +521,34 @@ def frap_cases():
                 out.append((T.enc_ty(t), t, doc, 'frap-family'))
     return out
 
+def judge_any_probe(ctx, cfg, n):
+    """deserialize_any dispatch (what a Content-buffering target — untagged / internally tagged enum, #[serde(flatten)] — records): the sequence of
+    visit_* calls must be the same from_value(v), T::deserialize(&v) and from_str(&to_string(&v)).  Evaluated directly on the implementation."""
+    import gen
+    rng = ctx.rng
+    L = ctx.letters(cfg)
+    docs = [b'null', b'[null]', b'{"a":null}', b'[[],{}]', b'true', b'0', b'-1', b'1.5', b'"x"', b'{"t":"A","x":null,"y":1}', b'[null,[null,{"k":[null]}]]',
+            b'18446744073709551615', b'-9223372036854775808', b'{"":null,"1":2}', b'-0.0']
+    for _ in range(n):
+        docs.append(gen.rand_top(rng, depth=rng.choice([1, 2, 3]), floats=False).strip())
+    lines = ['fvp %s %s' % (L, hx(d)) for d in docs]
+    outs = ctx.impl(cfg, lines, 'sjh_fv')
+    v = []
+    for d, o in zip(docs, outs):
+        if o == 'SKIP':
+            continue
+        parts = o.split(' | ')
+        if 'f' not in L:
+            # without float_roundtrip a float's text does not always read back bit for bit: outside the claim (C16: "comparisons involving f64
+            # assume float_roundtrip or short float literals"); the KIND of call (visit_f64) is still compared
+            parts = [re.sub(r'F\(\d+\)', 'F', x) for x in parts]
+        if o == 'PANIC' or len(parts) != 3 or not (parts[0] == parts[1] == parts[2]):
+            v.append({'what': 'deserialize_any-dispatch-differs', 'cfg': cfg, 'input': hx(d), 'expected': 'the same visit_* calls from_value | &Value | from_str(to_string)', 'actual': o[:400], 'shrinkable': False})
+        elif not ctx.quiet:
+            ctx.distinct_nontrivial += 1
+    ctx.count('deserialize_any-probes', len(lines))
+    return v
+
 def run_c16(ctx):
     ctx.rule = ('random type programs (typed.py rand_ty: every ty/kty constructor) x { Values parsed from a rendering of a random datum of the type in every accepted shape '
                 '(struct as object or array, enum as string or single-key object, options as null or value, numeric/bool/char/enum/newtype/option map keys, byte buffers as '
@@ -532,6 +560,7 @@ def run_c16(ctx):
     for cfg in ctx.cfgs:
         fx = fixed_cases()
         ctx.violations += judge_cases(ctx, cfg, fx)
+        ctx.violations += judge_any_probe(ctx, cfg, 3000 if quick else 30000)
         n = 8000 if quick else 60000
         done = 0
         while done < n:
